@@ -5,7 +5,7 @@ From Coq Require Import List PeanoNat.
 From GB Require Import Model Spec Inv Conc GI CIDef Lin LinDef.
 From GB Require Import O2_NoDel O2_Proof.
 From GB Require Import TB_Trace TB_Link TB_Proof TB_Counter TB_HW.
-From GB Require Import C4_Lists C4_Blocks C4_Inv C4_Proof C4_Trace C4_Final.
+From GB Require Import C4_Lists C4_Blocks C4_Inv C4_Proof C4_Trace C4_Final C4b_Proof C4b_Final.
 From GB Require Import TERM_Proof.
 From GB Require Import Frame LockInv Final RD_Base RD_Proof.
 Import ListNotations.
@@ -185,7 +185,18 @@ Theorem C04_persistent_key_reported : forall sched2 me x s2 acq ev,
   cstep ltb order (fst (exec ltb order s sched2)) me = Stepped s2 acq ev -> In EScanEnd ev ->
   exists acc, In x acc /\ ev = [EScanEnd; EReturn (RPairs (rev acc))].
 Proof. exact (C04_complete K V ltb HS order Heven H4 progs Hnd sched). Qed.
+(* the "Consequently" clause in full, however NewScanner landed: if the scan runs to exhaustion, every pair whose
+   key is not below the start key and that is stored in every state from the invocation of the scan on, is among the
+   pairs the scan returns *)
+Theorem C04_every_persistent_key_is_reported : forall me k cnt th sched2 x s2 acq ev,
+  get_thread me (ths s) = Some th -> tpc th = Idle -> hd_error (prog th) = Some (CScan k cnt) ->
+  ltb (fst x) k = false ->
+  along K V ltb order (fun s1 => In x (abs ltb s1) /\ calling me (prog th) s1) s sched2 ->
+  cstep ltb order (fst (exec ltb order s sched2)) me = Stepped s2 acq ev -> In EScanEnd ev ->
+  exists acc, In x acc /\ ev = [EScanEnd; EReturn (RPairs (rev acc))].
+Proof. exact (C04_complete_general K V ltb HS order Heven H4 progs Hnd sched). Qed.
 End C04.
+Print Assumptions C04_every_persistent_key_is_reported.
 Print Assumptions C04_pair_is_stored.
 Print Assumptions C04_strictly_increasing_from_start.
 Print Assumptions C04_next_is_atomic_successor.
